@@ -419,21 +419,24 @@ def _m_ts_butter(ex, st, a, k, n_):
     return NONE
 
 
-def _wr_inputs(extra):
+def _wr_inputs(extra, history=None):
     def mk(ex, st):
+        # `history`: the meta entries an earlier, identical call of the same method left behind (the method must act again: a slice / a later edit of
+        # the samples is not covered by what the metadata says was once done to the record)
         st.env["self"] = sym_obj(ex, st, "SeismicRecording3C", {"ns": SObj("TimeSeries", NS_ID, "param:self.ns"), "ew": SObj("TimeSeries", EW_ID, "param:self.ew"),
-                                                                "vt": SObj("TimeSeries", VT_ID, "param:self.vt"), "degrees_from_north": DEG, "meta": DictV({})}, owner="param:self")
+                                                                "vt": SObj("TimeSeries", VT_ID, "param:self.vt"), "degrees_from_north": DEG,
+                                                                "meta": DictV(dict(history or {}), owner="param:self.meta")}, owner="param:self")
         st.env.update(extra)
         st.env["__WC"] = WR_C0
         return [NS_ID != EW_ID, NS_ID != VT_ID, EW_ID != VT_ID]
     return mk
 
 
-def _wrapper(method, extra, apply):
+def _wrapper(method, extra, apply, history=None):
     gh = {"C": FuncV(lambda ex, st, a, k, n_: z3.Select(st.env["__WC"], a[0]), "C"), "C0": lambda i: z3.Select(WR_C0, i), "NS_ID": NS_ID, "EW_ID": EW_ID, "VT_ID": VT_ID,
           "APPLY": apply}
-    return Contract(qual=f"hvsrpy.seismic_recording_3c.SeismicRecording3C.{method}", params=["self"] + list(extra), ghost=gh, make_inputs=_wr_inputs(extra),
-                    ensures=["C(NS_ID) == APPLY(C0(NS_ID))", "C(EW_ID) == APPLY(C0(EW_ID))", "C(VT_ID) == APPLY(C0(VT_ID))"], modifies=["param:self"],
+    return Contract(qual=f"hvsrpy.seismic_recording_3c.SeismicRecording3C.{method}", params=["self"] + list(extra), ghost=gh, make_inputs=_wr_inputs(extra, history),
+                    ensures=["C(NS_ID) == APPLY(C0(NS_ID))", "C(EW_ID) == APPLY(C0(EW_ID))", "C(VT_ID) == APPLY(C0(VT_ID))"], modifies=["param:self", "param:self.meta"],
                     notes="the TimeSeries method is applied once to each of ns, ew, vt with the caller's arguments")
 
 
@@ -445,7 +448,11 @@ _WRAPPERS = [
 ]
 _WR_REG = {"TimeSeries.trim": FuncV(_m_ts_trim, "trim"), "TimeSeries.detrend": FuncV(_m_ts_detrend, "detrend"), "TimeSeries.window": FuncV(_m_ts_window, "window"),
            "TimeSeries.butterworth_filter": FuncV(_m_ts_butter, "butterworth_filter")}
+_HIST = {"trim": {"trim": Tup((T0, T1))}, "detrend": {"detrend": StrV("constant")}, "window": {"window_type_and_width": Tup((StrV("tukey"), WWID))},
+         "butterworth_filter": {"butterworth_filter": Tup((BLO, BHI))}}
 for _m, _extra, _apply in _WRAPPERS:
-    _c = _wrapper(_m, _extra, _apply)
-    _c.ghost_state = ("__WC",)
-    TASKS.append(FunctionTask(_c, registry=_WR_REG, clauses=[f"SeismicRecording3C.{_m} acts on all three components with the same arguments"]))
+    for _h in (None, _HIST[_m]):
+        _c = _wrapper(_m, _extra, _apply, _h)
+        _c.ghost_state = ("__WC",)
+        TASKS.append(FunctionTask(_c, registry=_WR_REG, label=f"hvsrpy.seismic_recording_3c.SeismicRecording3C.{_m}" + ("[after an identical earlier call]" if _h else ""),
+                                  clauses=[f"SeismicRecording3C.{_m} acts on all three components with the same arguments, whatever the metadata says was done before"]))
